@@ -105,6 +105,10 @@ def judgeQueries (_proto payload impl : String) : Verdict :=
   | some items =>
     -- per item: (impl ok, model agrees, unsafe literal seen)
     let results := items.map fun it =>
+      -- the macro of the protocol the entry belongs to (api.Protocol.Macro): the one macro that must hold
+      let owner : Option String := match field? it "owner" with
+        | some [o] => some (strOf o)
+        | _ => none
       match field? it "queries", field? it "macros", field? it "proto", field? it "entry" with
       | some qs, some ms, some [pn, pa], some [entryHex] =>
         let entry := Json.parse? (strOf entryHex)
@@ -125,7 +129,11 @@ def judgeQueries (_proto payload impl : String) : Verdict :=
           | .list [.atom name, .atom truth] =>
             let body := ((Gen.Macros.table.find? (·.1 == name)).map (·.2)).getD ""
             let expected := macroExpected body (strOf pn) (strOf pa)
-            let implOk := match expected with
+            -- independent of the definition's text: a macro holds exactly on the entries of its protocol
+            let ownOk := match owner with
+              | some o => truth == toString (o == name)
+              | none => true
+            let implOk := ownOk && match expected with
               | some b => truth == toString b
               | none => true
             let modelT : Option Bool := entry.bind (QueryParse.truthOn name)
